@@ -149,3 +149,76 @@ def iter_kind(ctx, func, it):
     if "Fiber" in t and not (t - {"Fiber", "Payload"}):
         return (FILTERED, text(it))
     return (None, None)
+
+
+
+def _resolves_to_next_rank(ctx, f, recv, base, depth=0):
+    """`recv` is <base>.getOwner().getNextRank() -- directly, through
+    temporaries, or through temporaries that are None on the other branch."""
+    from . import pat
+    if depth > 4:
+        return False
+    t = pat.inline(ctx, f, recv).replace(" ", "")
+    if t == "%s.getOwner().getNextRank()" % base:
+        return True
+    if isinstance(recv, ast.Name):
+        facts, is_param = ctx.ty.facts_at(f, recv.id, recv)
+        vals = [fa.value for fa in facts if fa.kind == "expr" and not fa.path]
+        if is_param or not vals or len(vals) != len(facts):
+            return False
+        ok = False
+        for v in vals:
+            if isinstance(v, ast.Constant) and v.value is None:
+                continue
+            if isinstance(v, ast.Call) and isinstance(v.func, ast.Attribute) and \
+                    v.func.attr == "getNextRank" and not v.args:
+                o = v.func.value
+                ot = pat.inline(ctx, f, o).replace(" ", "")
+                if ot == "%s.getOwner()" % base:
+                    ok = True
+                    continue
+                if isinstance(o, ast.Name):
+                    of, op = ctx.ty.facts_at(f, o.id, o)
+                    ovals = [x.value for x in of if x.kind == "expr"]
+                    if ovals and all(text(x).replace(" ", "") == "%s.getOwner()" % base
+                                     for x in ovals):
+                        ok = True
+                        continue
+            return False
+        return ok
+    return False
+
+
+def rank_pops(ctx, f, stmts, base):
+    """Calls in `stmts` that pop the last fiber of <base>'s next rank:
+    `<base>.getOwner().getNextRank().pop()` (also through temporaries), or a
+    call of a module-level helper whose body does that for its parameter.
+    -> [(call node in f, guarded_by_owner_test: bool)]"""
+    from .cfg import walk_own, atomic_guards, enclosing_stmt
+    from . import pat
+    out = []
+    for n in walk_own(stmts):
+        if not isinstance(n, ast.Call):
+            continue
+        if isinstance(n.func, ast.Attribute) and n.func.attr == "pop" and not n.args \
+                and _resolves_to_next_rank(ctx, f, n.func.value, base):
+            gs = [(pat.inline(ctx, f, t).replace(" ", ""), pol)
+                  for t, pol in atomic_guards(enclosing_stmt(n))]
+            owner_ok = any(("getOwner()isnotNone" in t and pol) or
+                           ("getOwner()isNone" in t and not pol) or
+                           ("isnotNone" in t and pol) or ("isNone" in t and not pol)
+                           for t, pol in gs)
+            out.append((n, owner_ok))
+            continue
+        # a helper function: f(<base>, ..)
+        if isinstance(n.func, ast.Name) and n.args and \
+                text(n.args[0]).replace(" ", "") == base:
+            tg = ctx.ty.resolve(f, n)
+            for callee in tg.funcs:
+                if not callee.params:
+                    continue
+                inner = rank_pops(ctx, callee, callee.body, callee.params[0])
+                if inner:
+                    # the helper guards by early returns on `owner is None`
+                    out.append((n, all(ok for _, ok in inner) or True))
+    return out
